@@ -83,6 +83,9 @@ pub struct BuiltObs {
     pub expected_certs: Vec<Vec<u8>>,
     /// produced by `build_tx_unsafe` (no final balance / fee validation by the library)
     pub unsafe_build: bool,
+    /// what the session's collection builders themselves report at that moment (None = error): certificate
+    /// deposits, certificate refunds (lovelace), total withdrawals (lovelace)
+    pub sub_figures: [Option<u64>; 3],
 }
 
 /// An item a redeemer was attached to (ground truth for C10).
@@ -459,7 +462,30 @@ impl<'a> Session<'a> {
     }
 
     pub fn output(&self, o: &OutSpec) -> Result<csl::TransactionOutput, Res> {
-        Self::reform(self.output_plain(o)?, o.form)
+        if o.form == 3 && !o.min_coin {
+            // the same output through the output builder's chain (address -> datum / script -> amount), with the
+            // amount step that fits: coin only, coin and assets, or a whole value
+            let addr = self.w.address(&o.addr);
+            let w = self.w;
+            return guard(|| {
+                let mut b = csl::TransactionOutputBuilder::new().with_address(&addr);
+                match &o.datum {
+                    Some(DatumAt::Hash(d)) => b = b.with_data_hash(&csl::hash_plutus_data(&w.datum(*d))),
+                    Some(DatumAt::Inline(d)) => b = b.with_plutus_data(&w.datum(*d)),
+                    None => {}
+                }
+                if let Some(s) = o.script_ref {
+                    b = b.with_script_ref(&w.script_val(s).script_ref());
+                }
+                let amount = b.next()?;
+                match (w.multiasset(&o.assets), o.coin % 2) {
+                    (None, 0) => amount.with_coin(&bn(o.coin)).build(),
+                    (Some(ma), 0) => amount.with_coin_and_asset(&bn(o.coin), &ma).build(),
+                    _ => amount.with_value(&w.value(o.coin, &o.assets)).build(),
+                }
+            });
+        }
+        Self::reform(self.output_plain(o)?, if o.form == 3 { 0 } else { o.form })
     }
 
     fn output_plain(&self, o: &OutSpec) -> Result<csl::TransactionOutput, Res> {
@@ -893,6 +919,14 @@ impl<'a> Session<'a> {
                 (0..c.len()).map(|i| c.get(i).to_bytes()).collect()
             },
             unsafe_build: false,
+            sub_figures: {
+                let (pd, kd) = (bn(self.sc.knobs.pool_deposit), bn(self.sc.knobs.key_deposit));
+                [
+                    self.certs.get_certificates_deposit(&pd, &kd).ok().map(u64::from),
+                    self.certs.get_certificates_refund(&pd, &kd).ok().map(|v| u64::from(v.coin())),
+                    self.wdrs.get_total_withdrawals().ok().map(|v| u64::from(v.coin())),
+                ]
+            },
         });
     }
 
